@@ -206,9 +206,15 @@ func runC09(c Case, m *Model) (v Verdict) {
 	b = genStreamFile(r, m)
 	n := len(b)
 	// every single split point (both EOF styles alternate), capped
+	maxCut := 400
+	if n > 8000 {
+		maxCut = 50
+	} else if n > 2000 {
+		maxCut = 120
+	}
 	step := 1
-	if n > 400 {
-		step = n / 400
+	if n > maxCut {
+		step = n / maxCut
 	}
 	for k := 1; k < n; k += step {
 		judgeFrag(b, strconv.Itoa(k), k%2 == 0, m, &v)
